@@ -204,7 +204,55 @@ def k_sec_header(ctx, service, subservice, msg_counter, dest_id, time_ref, ts):
         ctx.check("tm.sec_header", h.header_size == 7 + len(ts_b), "header_size", "", case, observed=h.header_size)
 
 
-KINDS = {"tm": k_tm, "tm_short": k_tm_short, "sec_header": k_sec_header}
+def k_view_history(ctx, seed):
+    """After any mix of pack / calc_crc / to_space_packet / unpack and changes through the public setters, pack() and the
+    space-packet view both equal the model of the current field values (also through the service-17 wrapper)."""
+    import random
+    tmm, sp, check_pus_crc, Service17Tm = _imp()
+    r = random.Random(f"tmview/{seed}")
+    case = {"k": "view_history", "seed": seed}
+    ctx.case("tm_view_history", seed, sample=case)
+    ts = r.randbytes(r.choice((0, 7, 16)))
+    f = {"apid": r.getrandbits(11), "count": r.getrandbits(14), "service": r.getrandbits(8), "subservice": r.getrandbits(8), "mc": r.getrandbits(16), "dest": r.getrandbits(16),
+         "tref": r.getrandbits(4), "ver": r.getrandbits(3), "data": r.randbytes(r.randrange(0, 12))}
+    route = r.choice(ROUTES)
+    if route == "srv17":
+        f["service"], f["mc"] = 17, 0
+    w = build(route, f["apid"], f["count"], f["service"], f["subservice"], f["mc"], f["dest"], f["tref"], f["ver"], ts, f["data"])
+    t = w.pus_tm if route == "srv17" else w
+    if r.random() < 0.4:
+        t = tmm.PusTm.unpack(bytes(t.pack()), len(ts))
+    ops = []
+    for step in range(r.randrange(2, 9)):
+        op = r.choice(("pack", "calc_crc", "view", "apid", "tm_data", "pack_cached"))
+        ops.append(op)
+        if op == "pack":
+            got = bytes(t.pack())
+        elif op == "pack_cached":
+            t.pack()
+            got = bytes(t.pack(recalc_crc=False))
+        elif op == "calc_crc":
+            t.calc_crc()
+            continue
+        elif op == "view":
+            got = bytes(t.to_space_packet().pack())
+        elif op == "apid":
+            f["apid"] = r.getrandbits(11)
+            t.apid = f["apid"]
+            continue
+        else:
+            f["data"] = r.randbytes(r.randrange(0, 12))
+            t.tm_data = f["data"]
+            continue
+        want = R.tm(f["apid"], f["count"], f["service"], f["subservice"], f["mc"], f["dest"], f["tref"], ts, f["data"], version=f["ver"])
+        what = "space_packet_view" if op == "view" else "pack"
+        changed = any(o in ops for o in ("apid", "tm_data"))
+        if not ctx.check("tm.view_history", got == want, f"{what}_differs_from_current_fields", _octet_diff(got, want, len(ts)) + ("/after_field_change" if changed else ""),
+                         dict(case, ops=ops), observed=got, expected=want):
+            return
+
+
+KINDS = {"tm": k_tm, "tm_short": k_tm_short, "sec_header": k_sec_header, "view_history": k_view_history}
 
 
 def selftest(ctx):
@@ -278,6 +326,8 @@ def run(ctx):
         k_tm(ctx, r.choice(ROUTES), rand_uint(r, 11), rand_uint(r, 14), rand_uint(r, 8), rand_uint(r, 8), rand_uint(r, 16),
              rand_uint(r, 16), rand_uint(r, 4), rand_uint(r, 3), ts_of(r.choice(TS_LENS)), rand_bytes(r, n),
              model_fed=r.random() < 0.5)
+    for j in range(ctx.n(1500, 150_000)):
+        k_view_history(ctx, ctx.seed * 1_000_003 + ctx.shard[0] * 100_003 + j)
     # rejection clause
     for ts_len in (0, 1, 7, 16):
         minimal = 6 + 7 + ts_len + 2
@@ -293,7 +343,7 @@ def conclude(ctx):
             ctx.require(any(k.startswith(f"tm/{route}/ts={ts}/") for k in ctx.classes), f"class tm/{route}/ts={ts} empty")
     for t, n in (("time_ref", 16), ("packet_version", 8), ("timestamp_len", len(TS_LENS))):
         ctx.require(len(ctx.tables.get(t, {})) == n, f"table {t} incomplete")
-    for m in ("tm.pack", "tm.unpack", "tm.roundtrip", "tm.space_packet_view", "tm.crc", "tm.srv17_views",
+    for m in ("tm.pack", "tm.unpack", "tm.roundtrip", "tm.space_packet_view", "tm.crc", "tm.srv17_views", "tm.view_history",
               "tm.short_declared_rejected", "tm.packet_len", "tm.timestamp_offset", "tm.sec_header"):
         ctx.require(ctx.monitors.get(m, {}).get("evaluations", 0) > 0, f"monitor {m} never evaluated")
     ctx.require(len(ctx.tables.get("short_declared_missing_octets", {})) >= 5, "too few short-declared classes")
